@@ -21,6 +21,14 @@ func watchdog(d time.Duration, f func() string) string {
 	}
 }
 
+// The harness's clock. Leases cannot be waited for; the ageing hooks of the range and prefix
+// plugins (build tag verif) make every recorded lease d older instead. Seen from the plugins'
+// data that is the same as the wall clock having advanced by d, so the time the harness reports
+// is wall clock + everything aged so far.
+var aged time.Duration
+
+func vnow() int64 { return time.Now().UnixNano() + int64(aged) }
+
 func hx(b []byte) string {
 	if len(b) == 0 {
 		return "-"
